@@ -243,18 +243,24 @@ Proof.
       + destruct (negb (String.eqb (vs_enc ses2) "") && negb (String.eqb (vs_enc ses2) (uc_enc c2))) eqn:En.
         * destruct (set_enc (cc_kind conf) (cc_tls_ok conf) (uc_enc c2) (vs_enc ses2)) as [oke enc'] eqn:Se.
           eexists _, _, _. split; [reflexivity|]. cbn [app fold_left estep].
-          rewrite Pend, String.eqb_refl, Hok. cbn [andb w_ok]. split; [reflexivity|].
-          intros ->. unfold good. cbn [w_cur w_dead w_ok w_pending upd_enc uc_enc orb negb].
-          rewrite Hcur, Hk, Htl, Se. cbn. rewrite Hdead. auto.
+          rewrite Pend, String.eqb_refl, Hok, Hcur, Hk, Htl, Se. cbn [andb w_ok snd].
+          assert (Hreq : (if oke then String.eqb enc' (vs_enc ses2) else true) = true).
+          { destruct oke; [apply set_enc_ok_is_requested in Se; subst; apply String.eqb_refl|reflexivity]. }
+          rewrite Hreq. split; [reflexivity|].
+          intros ->. unfold good. cbn [w_cur w_dead w_ok w_pending upd_enc uc_enc orb negb snd].
+          cbn. rewrite Hdead. auto.
         * eexists _, _, _. split; [reflexivity|]. cbn [app fold_left estep]. repeat split; auto.
       + eexists _, _, _. split; [reflexivity|]. cbn [app fold_left estep]. split; [auto|discriminate].
     - cbn [fst snd negb].
       destruct (negb (String.eqb (vs_enc ses2) "") && negb (String.eqb (vs_enc ses2) (uc_enc c2))) eqn:En.
       + destruct (set_enc (cc_kind conf) (cc_tls_ok conf) (uc_enc c2) (vs_enc ses2)) as [oke enc'] eqn:Se.
         eexists _, _, _. split; [reflexivity|]. cbn [app fold_left estep].
-        rewrite Pend, String.eqb_refl, Hok. cbn [andb w_ok]. split; [reflexivity|].
-        intros ->. unfold good. cbn [w_cur w_dead w_ok w_pending upd_enc uc_enc orb negb].
-        rewrite Hcur, Hk, Htl, Se. cbn. rewrite Hdead. auto.
+        rewrite Pend, String.eqb_refl, Hok, Hcur, Hk, Htl, Se. cbn [andb w_ok snd].
+        assert (Hreq : (if oke then String.eqb enc' (vs_enc ses2) else true) = true).
+        { destruct oke; [apply set_enc_ok_is_requested in Se; subst; apply String.eqb_refl|reflexivity]. }
+        rewrite Hreq. split; [reflexivity|].
+        intros ->. unfold good. cbn [w_cur w_dead w_ok w_pending upd_enc uc_enc orb negb snd].
+        cbn. rewrite Hdead. auto.
       + eexists _, _, _. split; [reflexivity|]. cbn [app fold_left estep]. repeat split; auto. }
   destruct Happ as [e4 [c3 [okA [-> [Hok5 Hgood5]]]]].
   assert (Hfold4 : forall rest, fold_left (estep k tl) (([USent (mk_usent c0 SNew) (uc_enc c0)] ++ e1) ++ [USent u2 (uc_enc c1)] ++ e3 ++ rest) (einit k)
